@@ -1,6 +1,6 @@
 import vlib, common
 
-RULE = 'http: a real single-node RaftNode behind the real API and management muxes (httptest servers); 1500 (quick) / 12000 (thorough) requests over every path and method with bodies of every JSON shape, truncated and garbled JSON, boundary numbers, empty/oversized/null collections, digests of every length; every request must get an HTTP response, a valid add + verifying membership proof must still work after every 10th request, the number of events each request caused to be replicated is compared with the proposal model, and the node must restart and replay its log afterwards. distinct = request; non-trivial = non-empty body'
+RULE = 'http: a real single-node RaftNode behind the real API and management muxes (httptest servers); 1500 (quick) / 12000 (thorough) requests over every path and method with bodies of every JSON shape, truncated and garbled JSON, boundary numbers, empty/oversized/null collections, digests of every length; every request must get an HTTP response, a valid add + verifying membership proof must still work after every 10th request, the number of events each request caused to be replicated is compared with the proposal model, and the node must restart and replay its log afterwards. distinct = request; non-trivial = non-empty body server: the real server.Server over HTTP across three lives; thorough: more than 65 536 events on a stand-alone server. http also sends valid requests with chunked bodies and an oversized Content-Length, and a phase of concurrent clients.'
 CMDS = ['http', 'server']
 CASES = {'http': ('run_api_cases', 'C11_proposals_applicable (Fsm/Api.v propose vs api/apihttp + RaftNode.Add/AddBulk)')}
 
